@@ -44,6 +44,12 @@ def programs(tier):
                     if tier == "quick" and order >= 3 and named and list(r) != sorted(r):
                         continue
                     out.append(("massaction", dict(reactants=list(r), products=["C"], named=named)))
+    # delayed reactions: the exported law is the rate of the firing itself, whatever happens later
+    for fam in ("fixed", "gaussian", "gamma"):
+        for r, dre, dpr in ((["A", "A"], [], ["C"]), (["A", "B", "A"], ["B"], ["C", "C"]), (["A"], [], ["C"])):
+            if tier == "quick" and fam == "gaussian" and len(r) != 2:
+                continue
+            out.append(("massaction", dict(reactants=r, products=[], named=(fam != "gamma"), delay=[fam, dre, dpr])))
     for pt in ("hillpositive", "hillnegative", "proportionalhillpositive", "proportionalhillnegative"):
         for named in ("roles", "n", False):
             for reactants in ([], ["A"]):
@@ -81,6 +87,9 @@ def build(T, ptype, spec, values):
         if "proportional" in ptype:
             pd["d"] = spec["d"]
     rx = (list(spec["reactants"]), list(spec["products"]), ptype, pd)
+    if spec.get("delay"):
+        fam, dre, dpr = spec["delay"]
+        rx = rx + (fam, list(dre), list(dpr), {"fixed": {"delay": 0.5}, "gaussian": {"mean": 2.0, "std": 0.25}, "gamma": {"k": 3.0, "theta": 0.5}}[fam])
     return rx, params
 
 
